@@ -80,15 +80,36 @@ def problems(env, cfg, tier):
             "C11.inv_counter": last | ((s2.step_count >= 0) & (s2.step_count < T)),
             "canary.agent0_never_moves": s2.positions[0] == s.positions[0],
         }
-        out.update(obs_clauses(env, s2, o, "C12.obs."))
-        i2 = inv(env, s2, T)
-        for k in ("node_types_in_range", "connected_index_names_its_node"):
-            out["C12.inv_" + k] = i2[k]  # the conjuncts of Inv the relabelling spec relies on
+        c = obs_clauses(env, s2, o, "C12.obs.")
+        # stated directly on the step the relabelling costs ~40 s per node (the successor's `connected_nodes_index` is a deep
+        # term): it is proved on the observation function for every state with node types in range (`MMST.observation`), and
+        # here the view handed out is that function of the NEW state, whose node types are still in range
+        del c["C12.obs.node_types"]
+        out.update(c)
+        out["C12.obs.node_types_is_observation_fn_of_new_state"] = o.node_types == env._state_to_observation(s2).node_types
+        out["C12.inv_node_types_in_range"] = inv(env, s2, T)["node_types_in_range"]
         return out
 
     step = dict(title=f"MMST.step@{cfg}", args=(T0, state, a), requires=req, ensures=ens, props=("C11", "C12"), workers=3,
                 targets=[type(env).step, type(env)._state_to_timestep, type(env)._state_to_observation],
                 note="time_limit is a symbolic scalar T >= 1 (the length of `connected_nodes` stays the configuration's)")
+
+    # the observation function alone, on any state whose node types are in range
+    def req_obs(s):
+        i = inv(env, s, jnp.int32(2 ** 30))
+        return {k: i[k] for k in ("node_types_in_range", "adjacency_is_0_1", "positions_are_nodes", "counter")}
+
+    def ens_obs(s):
+        o = env._state_to_observation(s)
+        out = obs_clauses(env, s, o, "C12.observation.")
+        b = bounds(env, o, "C01.observation_bounds")
+        del b["C01.observation_bounds.step_count"]  # needs the time limit: stated in `MMST.step_bounds`
+        out.update(b)
+        out["canary.node0_is_a_utility_node"] = o.node_types[0] == -1
+        return out
+
+    obsp = dict(title=f"MMST.observation@{cfg}", args=(state,), requires=req_obs, ensures=ens_obs, props=("C01", "C12"),
+                targets=[type(env)._state_to_observation], note="function-level contract of the observation function")
 
     # C01 with the configuration's time limit (the spec's step_count maximum)
     Tc = int(env.time_limit)
@@ -98,10 +119,16 @@ def problems(env, cfg, tier):
 
     def ens01(s, a):
         s2, ts = env.step(s, a)
+        o = ts.observation
         out = {"canary.agent0_never_moves": s2.positions[0] == s.positions[0]}
-        out.update(bounds(env, ts.observation, "C01.step_obs_bounds"))
+        b = bounds(env, o, "C01.step_obs_bounds")
+        # node_types: the relabelled values are bounded for every state with node types in range (`MMST.observation`); here:
+        # the view is the observation function of the new state, which keeps Inv
+        del b["C01.step_obs_bounds.node_types"]
+        out.update(b)
+        out["C01.step_obs_is_observation_fn_of_new_state"] = o.node_types == env._state_to_observation(s2).node_types
         i2 = inv(env, s2, Tc)
-        for k in ("node_types_in_range", "adjacency_is_0_1", "positions_are_nodes", "node_edges_name_their_column", "connected_index_names_its_node"):
+        for k in ("node_types_in_range", "adjacency_is_0_1", "positions_are_nodes", "node_edges_name_their_column"):
             out["C01.inv_" + k] = i2[k]
         return out
 
@@ -111,8 +138,8 @@ def problems(env, cfg, tier):
 
     # reset: the split-graph generator (nested loops) is a contract boundary
     def gen_post(g, key):
-        i0 = inv(env, g, jnp.int32(1))
-        return {**i0, "step_count_zero": g.step_count == 0}
+        i0 = inv(env, g, jnp.int32(1))  # (the edge-table conjuncts of Inv are not needed by the reset clauses)
+        return {**{k: i0[k] for k in ("node_types_in_range", "adjacency_is_0_1", "positions_are_nodes")}, "step_count_zero": g.step_count == 0}
 
     def reset_ens(g, key):
         s, ts = K.reset_from(env, "_generator", g, key)
@@ -126,4 +153,4 @@ def problems(env, cfg, tier):
 
     reset = dict(title=f"MMST.reset@{cfg}", args=(state, jnp.zeros((2,), jnp.uint32)), requires=gen_post, ensures=reset_ens, workers=3,
                  targets=[type(env).reset], note="generator replaced by its post-condition (contract boundary; the generator's own contract is C10)")
-    return [step, step01, reset]
+    return [step, obsp, step01, reset]
